@@ -3,7 +3,8 @@ import itertools
 import random
 from props.common import bounded
 
-LEVEL_TEXT = ("Deductive over the abstract view name -> list of (callback, context): on appends and leaves everything else untouched; off(name) "
+LEVEL_TEXT = ("[listener shapes include bound contexts: each listener is called with exactly its own keywords.]  "
+              "Deductive over the abstract view name -> list of (callback, context): on appends and leaves everything else untouched; off(name) "
               "removes the name, off(name, cb) keeps exactly the other listeners in order and never raises; emit delivers to the listeners "
               "subscribed at its start, in order, with the emitted arguments - under a havoc of the listener table at every call-out (subscribe / "
               "unsubscribe / delete during delivery), which is what makes 'delivery over a snapshot' a proof obligation; once registers a wrapper "
